@@ -23,6 +23,14 @@ Theorem c16_write_rows_frame : forall t new idx t', write_rows t new idx = Some 
 Proof. exact write_rows_spec. Qed.
 Print Assumptions c16_write_rows_frame.
 
+(* an accepted write_rows has a strictly increasing index list (anything else - unordered, repeated -
+   is refused, never written in another order), so every addressed row holds its new row afterwards *)
+Theorem c16_write_rows_ordered : forall t new idx t', write_rows t new idx = Some t' ->
+  increasing idx = true /\ NoDup idx /\
+  forall j, (j < length idx)%nat -> nth (nth j idx O) (t_rows t') [] = nth j new [].
+Proof. exact write_rows_accepts_increasing. Qed.
+Print Assumptions c16_write_rows_ordered.
+
 (* appending rows: the old rows, then the new ones, in order; refused exactly when some row does
    not have one value per column *)
 Theorem c16_append_rows : forall t rows,
